@@ -11,6 +11,14 @@ as hypotheses, the correspondence run feeds the driver with the real libraries' 
 Constants, the case sets of the Validate* functions, the dispatch tables of LoadAsFormat /
 dumpWithoutIdentifier and the two mime maps are regenerated from the source on every run (`PB.Gen.Dsd`).
 Strings are lists of Unicode code points (`Str`); behaviour on invalid UTF-8 is not modelled.
+
+The package has two assignable exported variables that its functions read at call time,
+`DefaultSerializationFormat` and `DefaultCompressionFormat` (format.go). They are INPUTS of the model (`Cfg`), not
+constants: every function that reads one of them takes it as an argument, and the theorems quantify over it. Apart
+from them (and the two mime maps, whose literals are regenerated) the package has no package-level state
+(`PB.Gen.Dsd.packageState`, regenerated and checked in PBProofs/C09.lean), which is what makes the functions of the
+model *functions*: a result depends on the arguments and on `Cfg` only, never on earlier calls, and two results
+never share storage.
 -/
 namespace PB.Dsd
 open PB PB.Varint PB.Gen.Dsd
@@ -50,13 +58,24 @@ structure Codec (V : Type) where
 
 /-! ### format.go -/
 
-def validateSerializationFormat (format : Nat) : Option Nat :=
-  if format ∈ serializationAuto then some defaultSerializationFormat
+/-- The package variables `DefaultSerializationFormat` / `DefaultCompressionFormat` at the time of a call. -/
+structure Cfg where
+  defSer : Nat
+  defComp : Nat
+  deriving Repr, DecidableEq
+
+/-- Their initialisers (regenerated). -/
+def Cfg.init : Cfg := { defSer := defaultSerializationFormat, defComp := defaultCompressionFormat }
+
+/-- `ValidateSerializationFormat`; `defSer` is the value of `DefaultSerializationFormat` when it is called. -/
+def validateSerializationFormat (defSer format : Nat) : Option Nat :=
+  if format ∈ serializationAuto then some defSer
   else if format ∈ serializationSame then some format
   else none
 
-def validateCompressionFormat (format : Nat) : Option Nat :=
-  if format ∈ compressionAuto then some defaultCompressionFormat
+/-- `ValidateCompressionFormat`; `defComp` is the value of `DefaultCompressionFormat` when it is called. -/
+def validateCompressionFormat (defComp format : Nat) : Option Nat :=
+  if format ∈ compressionAuto then some defComp
   else if format ∈ compressionSame then some format
   else none
 
@@ -87,8 +106,8 @@ def loadFormat (data : Bytes) : Except Err (Nat × Nat) :=
     else .ok (format, read)
 
 /-- `DecompressAndLoad`. Go returns `(format, err)`: the pair is kept. -/
-def decompressAndLoad {V : Type} (c : Codec V) (data : Bytes) (compression : Nat) : Nat × Except Err V :=
-  match validateCompressionFormat compression with
+def decompressAndLoad {V : Type} (cfg : Cfg) (c : Codec V) (data : Bytes) (compression : Nat) : Nat × Except Err V :=
+  match validateCompressionFormat cfg.defComp compression with
   | none => (0, .error .incompatible)
   | some _ =>
     if compression ∈ decompressGzipCases then
@@ -101,17 +120,17 @@ def decompressAndLoad {V : Type} (c : Codec V) (data : Bytes) (compression : Nat
     else (0, .error .incompatible)
 
 /-- `Load`. -/
-def load {V : Type} (c : Codec V) (data : Bytes) : Nat × Except Err V :=
+def load {V : Type} (cfg : Cfg) (c : Codec V) (data : Bytes) : Nat × Except Err V :=
   match loadFormat data with
   | .error e => (0, .error e)
   | .ok (format, read) =>
-    match validateSerializationFormat format with
+    match validateSerializationFormat cfg.defSer format with
     | some _ => (format, loadAsFormat c (data.drop read) format)
-    | none => decompressAndLoad c (data.drop read) format
+    | none => decompressAndLoad cfg c (data.drop read) format
 
 /-- `dumpWithoutIdentifier`; `indent = []` is Go's `indent == ""`. -/
-def dumpWithoutIdentifier {V : Type} (c : Codec V) (v : V) (format : Nat) (indent : Str) : Except Err Bytes :=
-  match validateSerializationFormat format with
+def dumpWithoutIdentifier {V : Type} (cfg : Cfg) (c : Codec V) (v : V) (format : Nat) (indent : Str) : Except Err Bytes :=
+  match validateSerializationFormat cfg.defSer format with
   | none => .error .incompatible
   | some format =>
     match lookup format dumpDispatch with
@@ -128,22 +147,22 @@ def dumpWithoutIdentifier {V : Type} (c : Codec V) (v : V) (format : Nat) (inden
 
 /-- `DumpIndent` (after the `fix:` commit: the identifier written is the *validated* format, so that AUTO is
     recorded as the format actually used). -/
-def dumpIndent {V : Type} (c : Codec V) (v : V) (format : Nat) (indent : Str) : Except Err Bytes :=
-  match validateSerializationFormat format with
+def dumpIndent {V : Type} (cfg : Cfg) (c : Codec V) (v : V) (format : Nat) (indent : Str) : Except Err Bytes :=
+  match validateSerializationFormat cfg.defSer format with
   | none => .error .incompatible
   | some format =>
-    match dumpWithoutIdentifier c v format indent with
+    match dumpWithoutIdentifier cfg c v format indent with
     | .error e => .error e
     | .ok data => .ok (pack8 format ++ data)
 
-def dump {V : Type} (c : Codec V) (v : V) (format : Nat) : Except Err Bytes := dumpIndent c v format []
+def dump {V : Type} (cfg : Cfg) (c : Codec V) (v : V) (format : Nat) : Except Err Bytes := dumpIndent cfg c v format []
 
 /-- `DumpAndCompress`. -/
-def dumpAndCompress {V : Type} (c : Codec V) (v : V) (format compression : Nat) : Except Err Bytes :=
-  match validateCompressionFormat compression with
+def dumpAndCompress {V : Type} (cfg : Cfg) (c : Codec V) (v : V) (format compression : Nat) : Except Err Bytes :=
+  match validateCompressionFormat cfg.defComp compression with
   | none => .error .incompatible
   | some compression =>
-    match dump c v format with
+    match dump cfg c v format with
     | .error e => .error e
     | .ok data =>
       if compression ∈ compressGzipCases then .ok (pack8 compression ++ c.gz data)
@@ -192,31 +211,32 @@ def cleanMime (e : Str) : Str :=
   toLower m
 
 /-- The loop of `FormatFromAccept` over the comma-separated elements. -/
-def ffaLoop : List Str → Bool → Nat
-  | [], foundWildcard => if foundWildcard then defaultSerializationFormat else AUTO
+def ffaLoop (defSer : Nat) : List Str → Bool → Nat
+  | [], foundWildcard => if foundWildcard then defSer else AUTO
   | e :: es, foundWildcard =>
     match lookup (cleanMime e) mimeTypeToFormat with
     | some format => format
-    | none => ffaLoop es (foundWildcard || cleanMime e == [42])
+    | none => ffaLoop defSer es (foundWildcard || cleanMime e == [42])
 
-def formatFromAccept (accept : Str) : Nat :=
-  if accept = [] then defaultSerializationFormat else ffaLoop (splitOn 44 accept) false
+/-- `FormatFromAccept`; `defSer` is the value of `DefaultSerializationFormat` when it is called. -/
+def formatFromAccept (defSer : Nat) (accept : Str) : Nat :=
+  if accept = [] then defSer else ffaLoop defSer (splitOn 44 accept) false
 
 /-- `MimeLoad`. -/
-def mimeLoad {V : Type} (c : Codec V) (data : Bytes) (accept : Str) : Nat × Except Err V :=
-  let format := formatFromAccept accept
+def mimeLoad {V : Type} (cfg : Cfg) (c : Codec V) (data : Bytes) (accept : Str) : Nat × Except Err V :=
+  let format := formatFromAccept cfg.defSer accept
   if format = 0 then (0, .error .incompatible) else (format, loadAsFormat c data format)
 
 /-- `MimeDump` (after the `fix:` commit: the mime type of the chosen format is returned, and a format without
     mime type is an error). Result: data, mime type, format. -/
-def mimeDump {V : Type} (c : Codec V) (v : V) (accept : Str) : Except Err (Bytes × Str × Nat) :=
-  let format := formatFromAccept accept
+def mimeDump {V : Type} (cfg : Cfg) (c : Codec V) (v : V) (accept : Str) : Except Err (Bytes × Str × Nat) :=
+  let format := formatFromAccept cfg.defSer accept
   if format = AUTO then .error .incompatible
   else
     match lookup format formatToMimeType with
     | none => .error .incompatible
     | some mimeType =>
-      match dumpWithoutIdentifier c v format [] with
+      match dumpWithoutIdentifier cfg c v format [] with
       | .error e => .error e
       | .ok data => .ok (data, mimeType, format)
 
@@ -235,27 +255,27 @@ structure Resp where
 
 /-- `DumpToHTTPRequest` (which first calls `RequestHTTPResponseFormat`: the Accept header is set even when
     serialisation fails afterwards). -/
-def dumpToHTTPRequest {V : Type} (c : Codec V) (r : Req) (v : V) (format : Nat) : Req × Option Err :=
+def dumpToHTTPRequest {V : Type} (cfg : Cfg) (c : Codec V) (r : Req) (v : V) (format : Nat) : Req × Option Err :=
   match lookup format formatToMimeType with
   | none => (r, some .incompatible)
   | some mimeType =>
     let r := { r with accept := some mimeType }
-    match dumpWithoutIdentifier c v format [] with
+    match dumpWithoutIdentifier cfg c v format [] with
     | .error e => (r, some e)
     | .ok data => ({ r with contentType := some mimeType, body := some data }, none)
 
 /-- `DumpToHTTPResponse`: the Accept header of the request decides (`Header.Get` of a missing header is ""). -/
-def dumpToHTTPResponse {V : Type} (c : Codec V) (w : Resp) (r : Req) (v : V) : Resp × Option Err :=
-  match mimeDump c v (r.accept.getD []) with
+def dumpToHTTPResponse {V : Type} (cfg : Cfg) (c : Codec V) (w : Resp) (r : Req) (v : V) : Resp × Option Err :=
+  match mimeDump cfg c v (r.accept.getD []) with
   | .error e => (w, some e)
   | .ok (data, mimeType, _) => ({ contentType := some mimeType, body := w.body ++ data }, none)
 
 /-- `LoadFromHTTPRequest` (a request without body reads as empty). -/
-def loadFromHTTPRequest {V : Type} (c : Codec V) (r : Req) : Nat × Except Err V :=
-  mimeLoad c (r.body.getD []) (r.contentType.getD [])
+def loadFromHTTPRequest {V : Type} (cfg : Cfg) (c : Codec V) (r : Req) : Nat × Except Err V :=
+  mimeLoad cfg c (r.body.getD []) (r.contentType.getD [])
 
 /-- `LoadFromHTTPResponse`. -/
-def loadFromHTTPResponse {V : Type} (c : Codec V) (w : Resp) : Nat × Except Err V :=
-  mimeLoad c w.body (w.contentType.getD [])
+def loadFromHTTPResponse {V : Type} (cfg : Cfg) (c : Codec V) (w : Resp) : Nat × Except Err V :=
+  mimeLoad cfg c w.body (w.contentType.getD [])
 
 end PB.Dsd
